@@ -175,6 +175,10 @@ func c03Perturb(r *rng, nodes []*cNode, kind string, authors []identity.Interfac
 		pickOne(r, nodes).pack.edit = 0
 	case "root-no-create":
 		nodes[0].pack.create = 0
+		// the creation time a later commit carries does not make up for it
+		if r.chance(1, 2) && len(nodes) > 1 {
+			pickOne(r, nodes[1:]).pack.create = uint64(r.rangeInt(1, 9))
+		}
 	case "second-root":
 		if n := nonRoot(single); n != nil {
 			n.parents = nil
